@@ -45,6 +45,11 @@ type Explorer struct {
 	// EnvBound > 0 gives non-default environment answers (injected faults) a budget of their own:
 	// up to EnvBound of them per execution, in addition to Bound preemptions. 0: they share Bound.
 	EnvBound int
+	// IOBound > 0: up to IOBound switches away from a thread that is parked at an I/O point (Op.IO)
+	// and still enabled are allowed in addition to Bound preemptions. There are far fewer I/O points
+	// than synchronisation points, so "one descheduling at an I/O call" is a much smaller search than
+	// "one preemption anywhere". 0: such a switch is an ordinary preemption.
+	IOBound  int
 	MaxExec  int64                    // cap on executions (0 = none)
 	Deadline time.Time                // wall-clock cap (zero = none)
 	MaxSteps int                      // livelock horizon per execution
@@ -190,13 +195,14 @@ func (s *Sched) loop() int {
 				c = 0
 			}
 		}
-		pi := PointInfo{N: len(enabled), RunEnabled: runEnabled, Devs: s.devs, EnvDevs: s.envDevs}
+		atIO := runEnabled && s.running.pending != nil && s.running.pending.IO && s.exp != nil && s.exp.IOBound > 0
+		pi := PointInfo{N: len(enabled), RunEnabled: runEnabled, Devs: s.devs, EnvDevs: s.envDevs, IO: atIO, IODevs: s.ioDevs}
 		if e := s.exp; e != nil && !e.NoCache && i >= len(s.prefix) && s.prunedAt < 0 {
 			key := s.stateKey()
 			pi.Key = key
 			// remaining budgets, packed; a cached entry prunes only if it dominates in both
-			left := (e.Bound-s.devs)<<8 | (e.EnvBound - s.envDevs)
-			if old, ok := e.cache[key]; ok && old>>8 >= left>>8 && old&0xff >= left&0xff {
+			left := (e.Bound-s.devs)<<16 | (e.IOBound-s.ioDevs)<<8 | (e.EnvBound - s.envDevs)
+			if old, ok := e.cache[key]; ok && old>>16 >= left>>16 && (old>>8)&0xff >= (left>>8)&0xff && old&0xff >= left&0xff {
 				s.prunedAt = i
 				e.CacheHits++
 			} else {
@@ -210,7 +216,11 @@ func (s *Sched) loop() int {
 		s.Points = append(s.Points, pi)
 		s.Choices = append(s.Choices, c)
 		if c != 0 && runEnabled {
-			s.devs++
+			if atIO && s.ioDevs < s.exp.IOBound {
+				s.ioDevs++
+			} else {
+				s.devs++
+			}
 		}
 		s.resumeLocked(enabled[c])
 	}
@@ -273,6 +283,11 @@ func (e *Explorer) explore(prefix []int, depth int) {
 		for alt := 1; alt < p.N; alt++ {
 			if p.Env && e.EnvBound > 0 {
 				if p.EnvDevs+1 > e.EnvBound || p.Devs > e.Bound {
+					continue
+				}
+			} else if p.IO && !p.Env && p.IODevs+1 <= e.IOBound {
+				// a switch away from a thread waiting for I/O, paid from the I/O budget
+				if p.Devs > e.Bound {
 					continue
 				}
 			} else {
